@@ -77,6 +77,8 @@ pub fn mig_case() -> impl Strategy<Value = MigCase> {
 						);
 					}
 				}
+				// (a source closed with an index growth still pending is the known finding
+				// migrate-misses-older-index-generation: every generated source is drained)
 				ops.push(Op::Drain);
 				MigCase { sc: Scenario { cfg: cfg2.clone(), ops }, dest, dest_compression, force, overwrite }
 			},
@@ -244,7 +246,46 @@ pub fn run_case(case: &MigCase, dir: &Path) -> CaseResult {
 	Ok(out)
 }
 
+/// Known finding: the source was closed while an index growth was pending (two index
+/// generations on disk; every key readable). migrate() walks only the newest generation - and
+/// races with the source's own workers, which resume the growth - so keys are missing in the
+/// destination.
+pub fn known_pending_growth_case() -> MigCase {
+	let mut c = ColCfg::hash();
+	c.uniform = true;
+	c.keyset = KeySet::Crafted { page: 0x4242 };
+	let cfg = DbCfg { cols: vec![c], zero_salt: true, sync_wal: true, sync_data: true, always_flush: false };
+	let ids: Vec<u16> = (0..40u16).chain(256..292u16).collect();
+	let ops = vec![
+		Op::Commit(ids.iter().map(|id| Item { col: 0, ch: Change::Set(*id, VSpec { len: 20 + (*id as u32 % 7), fill: 2, seed: *id }) }).collect()),
+		Op::P,
+		Op::F,
+		Op::E,
+		Op::C,
+	];
+	MigCase { sc: Scenario { cfg, ops }, dest: vec![1], dest_compression: vec![1], force: vec![true], overwrite: false }
+}
+
+fn known_regression(ctx: &Ctx) {
+	if ctx.shard != 0 {
+		return
+	}
+	let case = known_pending_growth_case();
+	let dir = ctx.case_dir();
+	let r = guarded(|| run_case(&case, &dir));
+	let _ = std::fs::remove_dir_all(&dir);
+	let mut rep = ctx.report.borrow_mut();
+	match r {
+		Err(f) if f.sig == "migrated-value-mismatch" => rep.known_findings.push(
+			"migrate() of a source that was closed while an index growth was pending (two index generations on disk, every key readable): only the newest generation is walked, keys still in the older one are missing in the destination [migrate-misses-older-index-generation]".to_string(),
+		),
+		Err(f) => rep.notes.push(format!("known-finding regression failed differently: {} {}", f.sig, f.detail)),
+		Ok(_) => rep.notes.push("known finding migrate-misses-older-index-generation did not reproduce on its regression case (fixed?)".to_string()),
+	}
+}
+
 fn run(ctx: &Ctx) {
+	known_regression(ctx);
 	let n = scaled(ctx, 1_200, 30_000);
 	ctx.run_prop_shrink("migrate", n, 400, mig_case(), run_case);
 }
